@@ -435,7 +435,7 @@ pub fn check(prop: &str, tier: Tier, seed: u64) -> CheckReport {
                 let short: String = k.what_fails.chars().take(220).collect();
                 println!("KNOWN-FINDING: property={} [{}] {}", spec.id, k.signature, short);
             }
-            known_hit.push(sig.clone());
+            known_hit.push(format!("{sig} (first seed {})", batch.outcomes[*idx].plan.seed));
             continue;
         }
         // minimise + replay file
